@@ -11,7 +11,10 @@ K3 visited is closed under E up to the frontier                          K4 a se
 K5/K6 attributes = entry attributes rewritten on Vis                     K7 flag => every visited node had the old id
 K8 not flag => no frontier node has the old id                           K9 flag => a level is a single node or holds no old id
 At exit the frontier is empty, so Vis is closed under E and contains start; Vis = below(start,.) is lemma M3'
-(Lean: closed_set_eq_below).  The two bookkeeping helpers called after the loops stay a bounded stand-in.
+(Lean: closed_set_eq_below).
+Lookup half: K10/K11 describe the two node lists the loops collect (as bags); after the loops the real
+_update_tracklet_bookkeeping / _update_lineage_bookkeeping are executed with their four leaf helpers used through the
+contracts of contracts/bookkeeping.py, and B1 (lookup = nodes per id) plus the raised maxima are proved at exit.
 """
 from __future__ import annotations
 
@@ -24,6 +27,7 @@ from pyvc.tracksmodel import a_, b_, k_
 from pyvc.values import Instance, SymList
 from pyvc.verify import call_real, repo
 
+from . import bookkeeping as BK
 from . import common as C
 
 TA = "funtracks.annotators._track_annotator.TrackAnnotator"
@@ -75,6 +79,24 @@ def k_clauses(G, K, v, Fr, flag, levels):
     return out
 
 
+def bag_clauses(G, K, fr):
+    """K10/K11: the two node lists handed to the bookkeeping helpers, as bags"""
+    bT, bL = fr.env["tracklet_nodes"], fr.env["lineage_nodes"]
+    t0 = lambda n: G.A0(n, K.trk)
+    return [
+        ("K10.tracklet-nodes-are-visited-nodes-with-the-old-id-each-once",
+         AND(bT.n >= 0, forall([n_], AND(bT.bag(n_) >= 0, bT.bag(n_) <= 1, IMP(bT.bag(n_) == 1, AND(G.Vis(n_), t0(n_) == G.o)))))),
+        ("K10.every-relabelled-node-is-listed", IMP(G.nw != G.o, forall([n_], IMP(AND(G.Vis(n_), t0(n_) == G.o), bT.bag(n_) == 1)))),
+        ("K11.lineage-nodes-are-the-visited-nodes-each-once-iff-lineage-is-updated",
+         AND(bL.n >= 0, forall([n_], bL.bag(n_) == z3.If(AND(G.upd, G.Vis(n_)), 1, 0)))),
+    ]
+
+
+def fresh_bags(I, fr):
+    for nm in ("tracklet_nodes", "lineage_nodes"):
+        fr.env[nm] = BK.BagList.fresh(I.ctx, nm)
+
+
 def link(name, L, lo, mem, pos):
     """the ghost set `mem` is exactly the elements L[lo..], without repetition (pos = index witness)"""
     return [
@@ -99,7 +121,7 @@ def flag_term(fr):
 
 class OuterLoop(LoopSpec):
     props = ("C04", "C05", "C01")
-    list_sorts = {"curr_nodes": Int, "tracklet_nodes": Int, "lineage_nodes": Int, "next_nodes": Int}
+    list_sorts = {"curr_nodes": Int, "next_nodes": Int}
 
     def __init__(self, G):
         self.G = G
@@ -107,6 +129,9 @@ class OuterLoop(LoopSpec):
     def enter(self, I, fr, it):
         G = self.G
         s = G.s
+        for nm in ("tracklet_nodes", "lineage_nodes"):
+            if not isinstance(fr.env[nm], BK.BagList):
+                fr.env[nm] = BK.BagList.empty(I.ctx)
         # initially nothing is visited and the frontier is [start]
         G.Vis = lambda n: z3.BoolVal(False)
         G.FrC = lambda n: n == s
@@ -116,7 +141,8 @@ class OuterLoop(LoopSpec):
 
     def havoc(self, I, fr, it, i, assigned):
         # lists mutated through append/extend are modified although never assigned
-        super().havoc(I, fr, it, i, assigned | {"tracklet_nodes", "lineage_nodes"})
+        super().havoc(I, fr, it, i, assigned)
+        fresh_bags(I, fr)
         I.ctx.state.havoc(I.ctx, ["A"])
         self.G.fresh(["Vis", "FrC", "pc"])
         self.G.FrX = lambda n: z3.BoolVal(False)
@@ -126,7 +152,7 @@ class OuterLoop(LoopSpec):
         Cl = as_list(I, fr.env["curr_nodes"])
         v = I.ctx.state.v
         return link("curr", Cl, z3.IntVal(0), G.FrC, G.pc) + \
-            k_clauses(G, G.W.K, v, G.FrC, flag_term(fr), [(Cl.n, G.FrC)])
+            k_clauses(G, G.W.K, v, G.FrC, flag_term(fr), [(Cl.n, G.FrC)]) + bag_clauses(G, G.W.K, fr)
 
     def ghost_step(self, I, fr, it, i):
         # curr_nodes = next_nodes: the next level becomes the current one
@@ -145,7 +171,7 @@ class OuterLoop(LoopSpec):
 
 class InnerLoop(LoopSpec):
     props = ("C04", "C05", "C01")
-    list_sorts = {"next_nodes": Int, "tracklet_nodes": Int, "lineage_nodes": Int}
+    list_sorts = {"next_nodes": Int}
 
     def __init__(self, G):
         self.G = G
@@ -156,7 +182,8 @@ class InnerLoop(LoopSpec):
         self.G.px = lambda n: z3.IntVal(0)
 
     def havoc(self, I, fr, it, i, assigned):
-        super().havoc(I, fr, it, i, (assigned | {"next_nodes", "tracklet_nodes", "lineage_nodes"}) - {"curr_nodes"})
+        super().havoc(I, fr, it, i, (assigned | {"next_nodes"}) - {"curr_nodes"})
+        fresh_bags(I, fr)
         I.ctx.state.havoc(I.ctx, ["A"])
         self.G.fresh(["Vis", "FrC", "FrX", "px"])
         # pc is not changed by the inner loop (positions in curr_nodes)
@@ -171,7 +198,7 @@ class InnerLoop(LoopSpec):
             [("K1.levels-disjoint", forall([n_], z3.Not(AND(G.FrC(n_), G.FrX(n_)))))] + \
             k_clauses(G, G.W.K, v, Fr, flag_term(fr), [(z3.If(i == 0, it.n, z3.IntVal(0)), G.FrC), (X.n, G.FrX)]) + \
             [("K9.flag-and-progress=>current-level-was-single", IMP(AND(G.nw != G.o, flag_term(fr), i > 0), it.n <= 1)),
-             ("next-level-empty-at-level-start", IMP(i == 0, X.n == 0))]
+             ("next-level-empty-at-level-start", IMP(i == 0, X.n == 0))] + bag_clauses(G, G.W.K, fr)
 
     def ghost_step(self, I, fr, it, i):
         G = self.G
@@ -229,9 +256,19 @@ class WalkBody(Contract):
                                  "new_lineage_id": Sym(newl), "old_lineage_id": Sym(T.lid(v0, K, start))})
         ctx.loopspecs[(WALK, 0)] = OuterLoop(G)
         ctx.loopspecs[(WALK, 1)] = InnerLoop(G)
-        for nm in ("_update_tracklet_bookkeeping", "_update_lineage_bookkeeping"):
-            c = BookkeepingStub(W, nm)
-            ctx.contracts[c.qualname] = c
+        # lookup half of contract K1: the lookups agree with the graph at entry (B1) ...
+        cT, cL = W.ta.fields["tracklet_id_to_nodes"], W.ta.fields["lineage_id_to_nodes"]
+        for lbl, f in T.B1(v0, K, cT, "trk"):
+            ctx.assume(f, "pre." + lbl)
+        for lbl, f in T.B1(v0, K, cL, "lin"):
+            ctx.assume(IMP(upd, f), "pre." + lbl)
+        # ... and the subtree below start carries one lineage id, which is the action's old_lineage_id
+        ctx.assume(IMP(upd, forall([a_], IMP(bel(start, a_), T.lid(v0, K, a_) == T.lid(v0, K, start)))), "pre.one-lineage-id-below-start")
+        mT0, mL0 = W.maxT(), W.maxL()
+        snapL0 = cL.snapshot()
+        # the two _update_*_bookkeeping bodies are executed; the four leaf helpers are used through their contracts
+        # (proved of their real bodies for node lists of every length in contracts/bookkeeping.py)
+        BK.install(I)
         s0 = C.Snap(W, I)
         out = call_real(I, WALK, [W.ta, action])
         q = "_handle_update_track_ids"
@@ -250,6 +287,17 @@ class WalkBody(Contract):
         s1 = C.Snap(W, I)
         for lbl, f in C.unchanged(s0, s1, ["N", "E", "Ae"]):
             ctx.oblige(f"{q}/ensures:{lbl}", f, props=("C04", "C03"))
+        # lookup half of contract K1
+        P6 = ("C06", "C01", "C04")
+        same_objs = W.ta.fields["tracklet_id_to_nodes"] is cT and W.ta.fields["lineage_id_to_nodes"] is cL
+        ctx.oblige(f"{q}/ensures:lookup-objects-kept", z3.BoolVal(same_objs), props=P6)
+        for lbl, f in T.B1(v1, K, cT, "trk"):
+            ctx.oblige(f"{q}/ensures:{lbl}(track-lookup-lists-exactly-the-nodes-per-id-again)", f, props=P6)
+        ctx.oblige(f"{q}/ensures:max-tracklet-id-raised-to-the-new-id", W.maxT() == z3.If(iv(new) > mT0, iv(new), mT0), props=P6)
+        for lbl, f in T.B1(v1, K, cL, "lin"):
+            ctx.oblige(f"{q}/ensures:{lbl}(lineage-lookup-agrees-again-when-lineage-is-updated)", IMP(upd, f), props=("C06", "C01", "C05"))
+        ctx.oblige(f"{q}/ensures:lineage-lookup-untouched-when-lineage-is-not-updated", IMP(z3.Not(upd), C.same_cache(snapL0, cL.snapshot())), props=("C06", "C05"))
+        ctx.oblige(f"{q}/ensures:max-lineage-id-raised-iff-lineage-is-updated", W.maxL() == z3.If(AND(upd, iv(newl) > mL0), iv(newl), mL0), props=("C06", "C05"))
         return out
 
 
